@@ -74,14 +74,6 @@ fn build_via_api(stack: &[GateModifier], name: &str, base_params: usize, qubits:
     g
 }
 
-fn instr_to_sexp(i: &Instruction) -> Sexp {
-    match i {
-        Instruction::Gate(g) => gate_to_sexp(g),
-        Instruction::Halt() => tagged("halt", vec![]),
-        _ => tagged("other", vec![]),
-    }
-}
-
 fn prog_case(ctx: &mut Ctx, instrs: Vec<Instruction>, n: u64) {
     let input = tagged("prog", vec![nat(n), tagged("instrs", instrs.iter().map(instr_to_sexp).collect())]);
     ctx.case(input, move || {
@@ -112,6 +104,26 @@ fn prog_case(ctx: &mut Ctx, instrs: Vec<Instruction>, n: u64) {
         };
         tagged("progres", vec![r1, d])
     });
+}
+
+/// The gate that is left in `g` after `Gate::to_unitary(&mut self)` has consumed its modifiers: each CONTROLLED /
+/// FORKED dropped the first qubit, each FORKED kept the second half of the parameters.
+fn residual(g: &Gate) -> Gate {
+    let mut params = g.parameters.clone();
+    let mut qubits = g.qubits.clone();
+    for m in &g.modifiers {
+        match m {
+            GateModifier::Dagger => {}
+            GateModifier::Controlled => {
+                qubits.remove(0);
+            }
+            GateModifier::Forked => {
+                qubits.remove(0);
+                params = params[params.len() / 2..].to_vec();
+            }
+        }
+    }
+    Gate { name: g.name.clone(), parameters: params, qubits, modifiers: vec![] }
 }
 
 fn random_gate(rng: &mut Rng, n: u64, max_depth: u64) -> Option<Gate> {
@@ -245,6 +257,78 @@ fn run(ctx: &mut Ctx) {
     prog_case(ctx, vec![Instruction::Gate(raw("X", vec![], &[0], vec![])), Instruction::Halt()], 1);
     prog_case(ctx, vec![Instruction::Gate(raw("X", vec![], &[0], vec![])), Instruction::Nop()], 1);
     prog_case(ctx, vec![Instruction::Gate(raw("FOO", vec![], &[0], vec![]))], 1);
+    // a modifier-carrying gate later followed by its exact base gate on the same qubits with the remaining
+    // parameters (a seeded per-gate cache keyed by the gate AFTER to_unitary consumed its modifiers only shows here)
+    prog_case(ctx, vec![Instruction::Gate(raw("X", vec![], &[1, 0], vec![Controlled])), Instruction::Gate(raw("X", vec![], &[0], vec![]))], 2);
+    prog_case(
+        ctx,
+        vec![
+            Instruction::Gate(raw("T", vec![], &[0], vec![Dagger])),
+            Instruction::Gate(raw("H", vec![], &[1], vec![])),
+            Instruction::Gate(raw("T", vec![], &[0], vec![])),
+        ],
+        2,
+    );
+    prog_case(
+        ctx,
+        vec![
+            Instruction::Gate(raw("RX", vec![real(0.4), real(1.1)], &[1, 0], vec![Forked])),
+            Instruction::Gate(raw("RX", vec![real(1.1)], &[0], vec![])),
+        ],
+        2,
+    );
+    // exact multiples of 2π through Program::to_unitary (RX/RY/RZ have period 4π)
+    prog_case(ctx, vec![Instruction::Gate(raw("RZ", vec![real(2.0 * std::f64::consts::PI)], &[0], vec![]))], 1);
+    prog_case(ctx, vec![Instruction::Gate(parse_gate("RX", "-2*pi", &[1]))], 2);
+
+    // ---- 5. systematic: `G; R`, `G; H; R`, `R; G; R` where R is what is left of G after to_unitary consumed its modifiers
+    {
+        let mut rng = ctx.rng(18);
+        let depth = if quick { 2 } else { 3 };
+        let max_t = if quick { 4 } else { 5 };
+        for stack in all_stacks(depth) {
+            if stack.is_empty() {
+                continue;
+            }
+            let extra = stack.iter().filter(|m| !matches!(m, Dagger)).count();
+            for (name, k, np) in BASES {
+                let t = k + extra;
+                if t > max_t {
+                    continue;
+                }
+                let n = t as u64;
+                let qs = random_placement(&mut rng, t, n);
+                let mut ix = 12;
+                let g = build_via_api(&stack, name, np, &qs, &mut rng, &mut ix);
+                let r = residual(&g);
+                let filler = Instruction::Gate(raw("H", vec![], &[qs[0]], vec![]));
+                prog_case(ctx, vec![Instruction::Gate(g.clone()), Instruction::Gate(r.clone())], n);
+                prog_case(ctx, vec![Instruction::Gate(g.clone()), filler, Instruction::Gate(r.clone())], n);
+                prog_case(ctx, vec![Instruction::Gate(r.clone()), Instruction::Gate(g), Instruction::Gate(r)], n);
+            }
+        }
+    }
+
+    // ---- 6. exact special angles (f64 products of PI / Quil text) in single-gate and longer programs
+    {
+        let mut rng = ctx.rng(19);
+        for (name, k) in PARAM_GATES {
+            for (ai, (value, text)) in exact_angles().into_iter().enumerate() {
+                let n = k as u64 + 1;
+                let qs = random_placement(&mut rng, k, n);
+                let g = if ai % 2 == 0 {
+                    parse_gate(name, text, &qs)
+                } else {
+                    Gate { name: name.to_string(), parameters: vec![real(value)], qubits: fixed(&qs), modifiers: vec![] }
+                };
+                prog_case(ctx, vec![Instruction::Gate(g.clone())], n);
+                let other = Instruction::Gate(raw("X", vec![], &[n - 1, 0], vec![Controlled]));
+                prog_case(ctx, vec![Instruction::Gate(raw("H", vec![], &[qs[0]], vec![])), Instruction::Gate(g), other], n);
+            }
+        }
+    }
+
+    // ---- 7. random programs
     for _ in 0..(if quick { 250 } else { 8000 }) {
         let n = if rng.chance(1, 5) { 5 } else { 1 + rng.below(4) };
         let len = rng.below(7);
